@@ -61,6 +61,15 @@ fn pattern_byte(stream: u8, n: usize, kind: u8, i: usize) -> u8 {
                 base + (i % 26) as u8
             }
         }
+        b'T' => {
+            if i + 2 == n || (n == 1 && i == 0) {
+                0xE2
+            } else if i + 1 == n {
+                0x82
+            } else {
+                base + (i % 26) as u8
+            }
+        }
         _ => b'?',
     }
 }
